@@ -37,11 +37,65 @@ impl Store {
     #[verifier::external_body]
     pub fn top_ixs(&self) -> (r: Vec<usize>)
         requires self.coherent(), self.limit <= 0x7fff_ffff_ffff_ffff,
-        ensures r@ == spec_top(self.records@, self.limit), top_post(self.records@.len() as int, self.limit as int, r@),
+        ensures r@ == spec_top(self.records@, self.limit), top_post(self.records@.len() as int, self.limit as int, r@), top_ordered(self.records@, r@),
     { unimplemented!() }
 }
-#[verifier::external_body]
-pub fn compare_hits(h1: &Hit, h2: &Hit) -> Ordering { unimplemented!() }
+// the comparator of the final ranking, `sort::compare_hits`, is named in the call by this tag (rule R30/R12); lane K proves on the
+// real function that it is the descending lexicographic order of the nine score slots, antisymmetric and transitive
+pub struct CmpHits;
+// h1 is not after h2: equal vectors, or the first differing slot is larger in h1
+pub open spec fn desc_le(a: [isize; 9], b: [isize; 9]) -> bool {
+    (forall|m: int| 0 <= m < 9 ==> a[m] == b[m]) || exists|k: int| 0 <= k < 9 && (forall|m: int| 0 <= m < k ==> a[m] == b[m]) && #[trigger] a[k] > b[k]
+}
+mod hitx {
+    use vstd::prelude::*;
+    use super::{ls_le, desc_le, CmpHits, Hit};
+    // link to lane K (harness compare_hits_is_lex_desc): compare_hits(h1, h2) != Greater  <=>  desc_le(scores1, scores2)
+    pub axiom fn ls_le_hits(h1: Hit, h2: Hit) ensures ls_le::<Hit, CmpHits>(CmpHits, h1, h2) == desc_le(h1.scores.0, h2.scores.0);
+}
+proof fn lemma_desc_total(a: [isize; 9], b: [isize; 9]) ensures desc_le(a, b) || desc_le(b, a)
+{
+    if !(forall|m: int| 0 <= m < 9 ==> a[m] == b[m]) {
+        // the first differing slot decides
+        let k = first_diff(a, b, 0);
+        lemma_first_diff(a, b, 0);
+        if a[k] > b[k] { assert(desc_le(a, b)); } else { assert(b[k] > a[k]); assert(forall|m: int| 0 <= m < k ==> b[m] == a[m]); assert(desc_le(b, a)); }
+    }
+}
+pub open spec fn first_diff(a: [isize; 9], b: [isize; 9], from: int) -> int decreases 9 - from { if from >= 9 { 9 } else if a[from] != b[from] { from } else { first_diff(a, b, from + 1) } }
+proof fn lemma_first_diff(a: [isize; 9], b: [isize; 9], from: int)
+    requires 0 <= from <= 9,
+    ensures from <= first_diff(a, b, from) <= 9, forall|m: int| from <= m < first_diff(a, b, from) ==> a[m] == b[m], first_diff(a, b, from) < 9 ==> a[first_diff(a, b, from)] != b[first_diff(a, b, from)],
+    decreases 9 - from
+{ if from < 9 && a[from] == b[from] { lemma_first_diff(a, b, from + 1); } }
+proof fn lemma_desc_trans(a: [isize; 9], b: [isize; 9], c: [isize; 9]) requires desc_le(a, b), desc_le(b, c) ensures desc_le(a, c)
+{
+    let eq_ab = forall|m: int| 0 <= m < 9 ==> a[m] == b[m];
+    let eq_bc = forall|m: int| 0 <= m < 9 ==> b[m] == c[m];
+    if eq_ab && eq_bc { } else if eq_ab {
+        let k = choose|k: int| 0 <= k < 9 && (forall|m: int| 0 <= m < k ==> b[m] == c[m]) && #[trigger] b[k] > c[k];
+        assert(a[k] > c[k]); assert(forall|m: int| 0 <= m < k ==> a[m] == c[m]);
+    } else if eq_bc {
+        let k = choose|k: int| 0 <= k < 9 && (forall|m: int| 0 <= m < k ==> a[m] == b[m]) && #[trigger] a[k] > b[k];
+        assert(a[k] > c[k]); assert(forall|m: int| 0 <= m < k ==> a[m] == c[m]);
+    } else {
+        let k1 = choose|k: int| 0 <= k < 9 && (forall|m: int| 0 <= m < k ==> a[m] == b[m]) && #[trigger] a[k] > b[k];
+        let k2 = choose|k: int| 0 <= k < 9 && (forall|m: int| 0 <= m < k ==> b[m] == c[m]) && #[trigger] b[k] > c[k];
+        let k = if k1 <= k2 { k1 } else { k2 };
+        assert(forall|m: int| 0 <= m < k ==> a[m] == c[m]);
+        assert(a[k] > c[k]);
+    }
+}
+proof fn lemma_ls_ok_hits() ensures ls_ok::<Hit, CmpHits>(CmpHits)
+{
+    reveal(ls_ok);
+    assert forall|x: Hit, y: Hit| #[trigger] ls_le::<Hit, CmpHits>(CmpHits, x, y) || ls_le::<Hit, CmpHits>(CmpHits, y, x) by {
+        hitx::ls_le_hits(x, y); hitx::ls_le_hits(y, x); lemma_desc_total(x.scores.0, y.scores.0);
+    }
+    assert forall|x: Hit, y: Hit, z: Hit| #[trigger] ls_le::<Hit, CmpHits>(CmpHits, x, y) && #[trigger] ls_le::<Hit, CmpHits>(CmpHits, y, z) implies ls_le::<Hit, CmpHits>(CmpHits, x, z) by {
+        hitx::ls_le_hits(x, y); hitx::ls_le_hits(y, z); hitx::ls_le_hits(x, z); lemma_desc_trans(x.scores.0, y.scores.0, z.scores.0);
+    }
+}
 // positions of the elements that a filter keeps
 pub open spec fn fmap<T>(s: Seq<T>, p: spec_fn(T) -> bool) -> Seq<int>
     decreases s.len()
@@ -73,7 +127,7 @@ pub open spec fn record_ok(r: &Record) -> bool {
 }
 // `h` is record `r` scored against the query: the record's own id / rating / title, and a match list for that title
 pub open spec fn scored(h: Hit, r: &Record, query: &TextRef) -> bool {
-    tm_some(&h.title, query, (h.rmatches, h.qmatches)) && h.id == r.id && h.rating == r.rating
+    tm_some(&h.title, query, (h.rmatches, h.qmatches)) && (query.words@.len() == 0 ==> h.rmatches@.len() == 0) && slots_ok(h) && h.id == r.id && h.rating == r.rating
     && h.title.words@ == r.title.words@ && h.title.source@ == r.title.source@ && h.title.chars@ == r.title.chars@ && h.title.classes@ == r.title.classes@
     && matches_for_text(h.rmatches@, &h.title) && matches_ok(h.rmatches@) && matches_ok(h.qmatches@)
 }
@@ -101,7 +155,7 @@ pub open spec fn trace_ok(cands: Seq<usize>, hs: Seq<Hit>, recs: Seq<Record>, qu
 // where the candidates come from: the trigram index for a query with words (C05 C03), the top-rated list otherwise (C12)
 pub open spec fn cand_src(cands: Seq<usize>, st: &Store, query: &TextRef) -> bool {
     (query.words@.len() > 0 ==> prepare_post(st.index.dict@, st.index.len as int, query.words@, query.chars@, st.limit as int, cands))
-    && (query.words@.len() == 0 ==> cands == spec_top(st.records@, st.limit) && top_post(st.records@.len() as int, st.limit as int, cands))
+    && (query.words@.len() == 0 ==> cands == spec_top(st.records@, st.limit) && top_post(st.records@.len() as int, st.limit as int, cands) && top_ordered(st.records@, cands))
 }
 // C05: the record's title and the query have a gram in common (a trigram, or a one- or two-letter word start)
 pub open spec fn common_gram(r: &Record, query: &TextRef) -> bool {
@@ -123,6 +177,10 @@ pub open spec fn rec_edit1(r: &Record, query: &TextRef, w: int, p: int) -> bool 
     0 <= w < r.title.words@.len() && query.words@.len() >= 1 && !query.words@[0].fin && rc.len() >= 5 && three_letters(rc)
     && (is_sub(rc, qc, p) || is_ins(rc, qc, p) || is_del(rc, qc, p) || is_trans(rc, qc, p))
 }
+// C05: the entry is a record whose title shares a gram with the query
+pub open spec fn result_shares(sr: SearchResult, recs: Seq<Record>, query: &TextRef) -> bool {
+    exists|j: int| 0 <= j < recs.len() && sr.id == (#[trigger] recs[j]).id && common_gram(&recs[j], query)
+}
 // a well-formed text satisfies the index's size requirement: the word lengths add up to at most the text length
 proof fn lemma_text_ok(t: &TextRef, n: int)
     requires text_wf(t), 0 <= n <= t.words@.len(),
@@ -130,6 +188,133 @@ proof fn lemma_text_ok(t: &TextRef, n: int)
     decreases n
 {
     if n > 0 { lemma_text_ok(t, n - 1); if n > 1 { assert(t.words@[n - 2].slice.1 <= t.words@[n - 1].slice.0); } }
+}
+// C12: the ranking for a query without words.  `listed(j)`: record position j is one of the returned candidates
+pub open spec fn listed(cands: Seq<usize>, pos: Seq<int>, j: int) -> bool { exists|k: int| 0 <= k < pos.len() && cands[#[trigger] pos[k]] == j as usize }
+pub open spec fn rank_ok(cands: Seq<usize>, pos: Seq<int>, recs: Seq<Record>, query: &TextRef) -> bool {
+    query.words@.len() == 0 ==> {
+        // ratings never increase down the list
+        &&& (forall|a: int, b: int| 0 <= a <= b < pos.len() ==> recs[cands[#[trigger] pos[a]] as int].rating >= recs[cands[#[trigger] pos[b]] as int].rating)
+        // no record left out is before a listed one in the order (rating descending, then normalised title ascending)
+        &&& (forall|j: int, a: int| 0 <= j < recs.len() && 0 <= a < pos.len() && !#[trigger] listed(cands, pos, j) ==> rec_le(&recs[cands[#[trigger] pos[a]] as int], &recs[j]))
+    }
+}
+// the score slots of a hit without matches: everything but the rating, the word count and the character count is a constant
+proof fn lemma_empty_slots(h: Hit)
+    requires slots_ok(h), h.rmatches@.len() == 0,
+    ensures h.scores.0[0] == 0, h.scores.0[1] == 0, h.scores.0[2] == 0, h.scores.0[3] == 0, h.scores.0[4] == 1, h.scores.0[5] == 0, h.scores.0[6] == h.rating,
+{ }
+proof fn lemma_search_c12(st: &Store, query: &TextRef, ixs: Seq<usize>, hs: Seq<Hit>, pos: Seq<int>, sel: Seq<Hit>)
+    requires st.srch_ok(), cand_src(ixs, st, query), trace_ok(ixs, hs, st.records@, query), query.words@.len() == 0,
+        pos.len() == sel.len(), forall|k: int| 0 <= k < sel.len() ==> 0 <= #[trigger] pos[k] < hs.len() && sel[k] == hs[pos[k]],
+        ls_sorted(sel, CmpHits), forall|i: int| 0 <= i < hs.len() ==> pos.contains(i),
+    ensures rank_ok(ixs, pos, st.records@, query),
+{
+    let recs = st.records@;
+    assert forall|a: int, b: int| 0 <= a <= b < pos.len() implies recs[ixs[#[trigger] pos[a]] as int].rating >= recs[ixs[#[trigger] pos[b]] as int].rating by {
+        let ha = sel[a]; let hb = sel[b];
+        assert(ls_le::<Hit, CmpHits>(CmpHits, ha, hb));
+        hitx::ls_le_hits(ha, hb);
+        assert(scored(hs[pos[a]], &recs[ixs[pos[a]] as int], query)); assert(scored(hs[pos[b]], &recs[ixs[pos[b]] as int], query));
+        lemma_empty_slots(ha); lemma_empty_slots(hb);
+        let x = ha.scores.0; let y = hb.scores.0;
+        if !(forall|m: int| 0 <= m < 9 ==> x[m] == y[m]) {
+            let k = choose|k: int| 0 <= k < 9 && (forall|m: int| 0 <= m < k ==> x[m] == y[m]) && #[trigger] x[k] > y[k];
+            assert(k >= 6) by { if k < 6 { assert(x[k] == y[k]); } }
+            if k > 6 { assert(x[6] == y[6]); }
+        } else { assert(x[6] == y[6]); }
+    }
+    assert forall|j: int, a: int| 0 <= j < recs.len() && 0 <= a < pos.len() && !#[trigger] listed(ixs, pos, j) implies rec_le(&recs[ixs[#[trigger] pos[a]] as int], &recs[j]) by {
+        // every candidate is listed, so j is not a candidate; the candidates are in rec_le order and none left out is before the last
+        if ixs.contains(j as usize) {
+            let i = choose|i: int| 0 <= i < ixs.len() && ixs[i] == j as usize;
+            assert(pos.contains(i));
+            let k = choose|k: int| 0 <= k < pos.len() && pos[k] == i;
+            assert(ixs[pos[k]] == j as usize);
+            assert(listed(ixs, pos, j));
+        }
+        let i = pos[a];
+        assert(rec_le(&recs[ixs[i] as int], &recs[ixs[ixs.len() - 1] as int]));
+        assert(ixs.last() == ixs[ixs.len() - 1]);
+        assert(rec_le(&recs[ixs.last() as int], &recs[j]));
+        lemma_rec_le_trans(&recs[ixs[i] as int], &recs[ixs.last() as int], &recs[j]);
+    }
+}
+// positions (in the trace) of the selected hits: the filter's position map composed with the selection's
+pub open spec fn pos_of(hs: Seq<Hit>, query: &TextRef, n: nat, idx: Seq<int>) -> Seq<int> { Seq::new(n, |k: int| fmap(hs, passes(query))[idx[k]]) }
+proof fn lemma_select(hs: Seq<Hit>, items: Seq<Hit>, sel: Seq<Hit>, idx: Seq<int>, query: &TextRef, limit: usize, recs: Seq<Record>)
+    requires items == hs.filter(passes(query)), selection(sel, items, idx), sel.len() == (if items.len() < limit { items.len() } else { limit as nat }),
+        forall|m: int| 0 <= m < items.len() ==> good_hit(#[trigger] items[m], recs, query),
+    ensures ({ let pos = pos_of(hs, query, sel.len(), idx);
+        &&& pos.len() == sel.len() && pos.no_duplicates()
+        &&& forall|k: int| 0 <= k < sel.len() ==> 0 <= #[trigger] pos[k] < hs.len() && hm_spec(query, &hs[pos[k]]) && sel[k] == hs[pos[k]]
+        &&& forall|m: int| 0 <= m < sel.len() ==> good_hit(#[trigger] sel[m], recs, query)
+        &&& (items.len() <= limit ==> forall|i: int| 0 <= i < hs.len() && hm_spec(query, &#[trigger] hs[i]) ==> pos.contains(i)) }),
+{
+    let fm = fmap(hs, passes(query));
+    let pos = pos_of(hs, query, sel.len(), idx);
+    lemma_fmap(hs, passes(query));
+    assert forall|a: int, b: int| 0 <= a < pos.len() && 0 <= b < pos.len() && a != b implies pos[a] != pos[b] by {
+        assert(idx[a] != idx[b]);
+        if idx[a] < idx[b] { assert(fm[idx[a]] < fm[idx[b]]); } else { assert(fm[idx[b]] < fm[idx[a]]); }
+    }
+    assert forall|k: int| 0 <= k < sel.len() implies 0 <= #[trigger] pos[k] < hs.len() && hm_spec(query, &hs[pos[k]]) && sel[k] == hs[pos[k]] by {
+        assert(0 <= idx[k] < items.len());
+    }
+    assert forall|m: int| 0 <= m < sel.len() implies good_hit(#[trigger] sel[m], recs, query) by { assert(sel[m] == items[idx[m]]); }
+    if items.len() <= limit {
+        lemma_selection_full(sel, items, idx);
+        lemma_fmap_onto(hs, passes(query));
+        assert forall|i: int| 0 <= i < hs.len() && hm_spec(query, &#[trigger] hs[i]) implies pos.contains(i) by {
+            let m = choose|m: int| 0 <= m < fm.len() && fm[m] == i;
+            assert(idx.contains(m));
+            let k = choose|k: int| 0 <= k < idx.len() && idx[k] == m;
+            assert(pos[k] == i);
+        }
+    }
+}
+// everything Store::search promises about its result, from the trace facts its two loops establish
+proof fn lemma_search_final(st: &Store, query: &TextRef, ixs: Seq<usize>, hs: Seq<Hit>, pos: Seq<int>, sel: Seq<Hit>, out: Seq<SearchResult>)
+    requires st.srch_ok(), text_wf(query), cand_src(ixs, st, query), trace_ok(ixs, hs, st.records@, query),
+        pos.len() == sel.len(), pos.no_duplicates(), out.len() == sel.len(),
+        forall|k: int| 0 <= k < sel.len() ==> 0 <= #[trigger] pos[k] < hs.len() && hm_spec(query, &hs[pos[k]]) && sel[k] == hs[pos[k]],
+        forall|m: int| 0 <= m < sel.len() ==> good_hit(#[trigger] sel[m], st.records@, query),
+        forall|k: int| 0 <= k < out.len() ==> (#[trigger] out[k]).id == sel[k].id && out[k].title@ == shown(sel[k], st.dividers.0@, st.dividers.1@),
+        sel.len() == (if hs.filter(passes(query)).len() < st.limit { hs.filter(passes(query)).len() } else { st.limit as nat }),
+        hs.filter(passes(query)).len() <= st.limit ==> forall|i: int| 0 <= i < hs.len() && hm_spec(query, &#[trigger] hs[i]) ==> pos.contains(i),
+        ls_sorted(sel, CmpHits),
+    ensures
+        forall|k: int| 0 <= k < out.len() ==> result_ok(#[trigger] out[k], st.records@, query, st.dividers.0@, st.dividers.1@),
+        sel_ok(out, hs, pos, query, st.dividers.0@, st.dividers.1@),
+        rank_ok(ixs, pos, st.records@, query),
+        query.words@.len() > 0 ==> forall|k: int| 0 <= k < out.len() ==> result_shares(#[trigger] out[k], st.records@, query),
+        st.records@.len() <= st.limit && query.words@.len() == 1 ==> forall|j: int, w: int| 0 <= j < st.records@.len() && #[trigger] rec_prefix(&st.records@[j], query, w) ==> exists|k: int| 0 <= k < out.len() && (#[trigger] out[k]).id == st.records@[j].id,
+        st.records@.len() <= st.limit && query.words@.len() == 1 ==> forall|j: int, w: int| 0 <= j < st.records@.len() && #[trigger] rec_equal(&st.records@[j], query, w) ==> exists|k: int| 0 <= k < out.len() && (#[trigger] out[k]).id == st.records@[j].id,
+        st.records@.len() <= st.limit && query.words@.len() == 1 ==> forall|j: int, w: int, p: int| 0 <= j < st.records@.len() && #[trigger] rec_edit1(&st.records@[j], query, w, p) ==> exists|k: int| 0 <= k < out.len() && (#[trigger] out[k]).id == st.records@[j].id,
+        query.words@.len() == 0 ==> out.len() == (if st.records@.len() < st.limit { st.records@.len() } else { st.limit as nat }),
+{
+    let recs = st.records@;
+    assert forall|k: int| 0 <= k < out.len() implies result_ok(#[trigger] out[k], recs, query, st.dividers.0@, st.dividers.1@) by {
+        let h = sel[k]; assert(good_hit(h, recs, query));
+    }
+    assert(sel_ok(out, hs, pos, query, st.dividers.0@, st.dividers.1@));
+    if query.words@.len() > 0 {
+        assert forall|k: int| 0 <= k < out.len() implies result_shares(#[trigger] out[k], recs, query) by {
+            let c = ixs[pos[k]];
+            let j = c as int;
+            assert(shares(st.index.dict@, query.words@, query.chars@, j));
+            let g = choose|g: [char; 3]| has_gram(query.words@, query.chars@, g@) && #[trigger] posted(st.index.dict@, g, j);
+            assert(has_gram(recs[j].title.words@, recs[j].title.chars@, g@));
+            assert(scored(hs[pos[k]], &recs[j], query));
+            assert(out[k].id == recs[j].id && common_gram(&recs[j], query));
+        }
+    } else {
+        lemma_filter_all(hs, passes(query));
+        lemma_search_c12(st, query, ixs, hs, pos, sel);
+    }
+    lemma_search_c03(st, query, ixs, hs, pos, out);
+    lemma_search_c04(st, query, ixs, hs, pos, out);
+    lemma_search_c13(st, query, ixs, hs, pos, out);
 }
 proof fn lemma_highlightable(h: Hit, r: &Record, query: &TextRef)
     requires scored(h, r, query), record_ok(r)
@@ -349,10 +534,12 @@ impl Store {
                 && ret@.len() == (if hs.filter(passes(query)).len() < self.limit { hs.filter(passes(query)).len() } else { self.limit as nat }) // [C06 C12]
                 // the candidates are the index's answer for the query (C05 C03 C04) or the top-rated list (C12)
                 && cand_src(cands, self, query) // [C05 C03 C04 C12 C06]
+                // C12: for a query without words the list is in rating order and nothing left out is before a listed record
+                && rank_ok(cands, pos, self.records@, query) // [C12]
                 // and when the passing candidates fit under the limit every one of them is returned
                 && (hs.filter(passes(query)).len() <= self.limit ==> forall|i: int| 0 <= i < hs.len() && hm_spec(query, &#[trigger] hs[i]) ==> pos.contains(i)), // [C06 C03 C04]
             // C05: a hit for a query with words is a record whose title shares a gram with the query
-            query.words@.len() > 0 ==> forall|k: int| 0 <= k < ret@.len() ==> exists|j: int| 0 <= j < self.records@.len() && (#[trigger] ret@[k]).id == self.records@[j].id && common_gram(&self.records@[j], query), // [C05]
+            query.words@.len() > 0 ==> forall|k: int| 0 <= k < ret@.len() ==> result_shares(#[trigger] ret@[k], self.records@, query), // [C05]
             // C03 (search-as-you-type, modulo the tokeniser): with room for every record, a record one of whose title words starts with
             // the single query word being typed is among the hits
             self.records@.len() <= self.limit && query.words@.len() == 1 ==> forall|j: int, w: int| 0 <= j < self.records@.len() && #[trigger] rec_prefix(&self.records@[j], query, w)
@@ -411,40 +598,18 @@ impl Store {
             proof { assert(scored(__cur, &recs[ix as int], query)); assert(good_hit(__cur, recs, query)); }
             __items0.push(__cur);
         }
-        let __sel0 = limit_sort_all(__items0, self.limit, compare_hits);
+        proof { lemma_ls_ok_hits(); }
+        let __sel0 = limit_sort_all(__items0, self.limit, CmpHits);
         proof { assert(trace_ok(ixs@, hs, recs, query)); }
         let ghost idx = choose|idx: Seq<int>| selection(__sel0@, __items0@, idx);
-        let ghost fm = fmap(hs, passes(query));
-        let ghost pos = Seq::new(__sel0@.len(), |k: int| fm[idx[k]]);
-        proof {
-            lemma_fmap(hs, passes(query));
-            assert forall|a: int, b: int| 0 <= a < pos.len() && 0 <= b < pos.len() && a != b implies pos[a] != pos[b] by {
-                assert(idx[a] != idx[b]);
-                if idx[a] < idx[b] { assert(fm[idx[a]] < fm[idx[b]]); } else { assert(fm[idx[b]] < fm[idx[a]]); }
-            }
-            assert forall|k: int| 0 <= k < __sel0@.len() implies 0 <= #[trigger] pos[k] < hs.len() && hm_spec(query, &hs[pos[k]]) && __sel0@[k] == hs[pos[k]] by {
-                assert(0 <= idx[k] < __items0@.len());
-            }
-        }
-        proof { assert forall|m: int| 0 <= m < __sel0@.len() implies good_hit(#[trigger] __sel0@[m], recs, query) by { let i = choose|i: int| 0 <= i < __items0@.len() && __items0@[i] == __sel0@[m]; } }
-        proof {
-            // when everything that passed fits under the limit, the selection keeps every passing candidate
-            if hs.filter(passes(query)).len() <= self.limit {
-                lemma_selection_full(__sel0@, __items0@, idx);
-                lemma_fmap_onto(hs, passes(query));
-                assert forall|i: int| 0 <= i < hs.len() && hm_spec(query, &#[trigger] hs[i]) implies pos.contains(i) by {
-                    let m = choose|m: int| 0 <= m < fm.len() && fm[m] == i;
-                    assert(idx.contains(m));
-                    let k = choose|k: int| 0 <= k < idx.len() && idx[k] == m;
-                    assert(pos[k] == i);
-                }
-            }
-        }
+        let ghost pos = pos_of(hs, query, __sel0@.len(), idx);
+        proof { lemma_select(hs, __items0@, __sel0@, idx, query, self.limit, recs); }
         let ghost covered: bool = forall|i: int| 0 <= i < hs.len() && hm_spec(query, &#[trigger] hs[i]) ==> pos.contains(i);
+        let ghost sorted_hits: bool = ls_sorted(__sel0@, CmpHits);
         let mut __out0: Vec<SearchResult> = Vec::new();
         let mut __q0 = 0;
         while __q0 < __sel0.len()
-            invariant __q0 <= __sel0@.len(), __sel0@.len() <= self.limit, trace_ok(ixs@, hs, recs, query), __sel0@.len() == (if hs.filter(passes(query)).len() < self.limit { hs.filter(passes(query)).len() } else { self.limit as nat }), __out0@.len() == __q0, recs == self.records@, pos.len() == __sel0@.len(), pos.no_duplicates(), cand_src(ixs@, self, query), hs.filter(passes(query)).len() <= self.limit ==> covered,
+            invariant __q0 <= __sel0@.len(), __sel0@.len() <= self.limit, trace_ok(ixs@, hs, recs, query), __sel0@.len() == (if hs.filter(passes(query)).len() < self.limit { hs.filter(passes(query)).len() } else { self.limit as nat }), __out0@.len() == __q0, recs == self.records@, pos.len() == __sel0@.len(), pos.no_duplicates(), cand_src(ixs@, self, query), hs.filter(passes(query)).len() <= self.limit ==> covered, sorted_hits, sorted_hits == ls_sorted(__sel0@, CmpHits), covered == (forall|i: int| 0 <= i < hs.len() && hm_spec(query, &#[trigger] hs[i]) ==> pos.contains(i)),
                 forall|k: int| 0 <= k < __sel0@.len() ==> 0 <= #[trigger] pos[k] < hs.len() && hm_spec(query, &hs[pos[k]]) && __sel0@[k] == hs[pos[k]],
                 self.srch_ok(), dividers.0@ == self.dividers.0@, dividers.1@ == self.dividers.1@,
                 forall|m: int| 0 <= m < __sel0@.len() ==> good_hit(#[trigger] __sel0@[m], recs, query),
@@ -462,30 +627,7 @@ impl Store {
             let __cur = { SearchResult { id: hit.id, title: highlight(&hit, dividers) } };
             __out0.push(__cur);
         }
-        proof {
-            assert forall|k: int| 0 <= k < __out0@.len() implies result_ok(#[trigger] __out0@[k], self.records@, query, self.dividers.0@, self.dividers.1@) by {
-                let h = __sel0@[k]; assert(good_hit(h, recs, query));
-            }
-            assert(sel_ok(__out0@, hs, pos, query, self.dividers.0@, self.dividers.1@));
-            // C05: a returned record shares a gram with the query (index answer + index content invariant)
-            if query.words@.len() > 0 {
-                assert forall|k: int| 0 <= k < __out0@.len() implies exists|j: int| 0 <= j < recs.len() && (#[trigger] __out0@[k]).id == recs[j].id && common_gram(&recs[j], query) by {
-                    let c = ixs@[pos[k]];
-                    let j = c as int;
-                    assert(shares(self.index.dict@, query.words@, query.chars@, j));
-                    let g = choose|g: [char; 3]| has_gram(query.words@, query.chars@, g@) && #[trigger] posted(self.index.dict@, g, j);
-                    assert(has_gram(recs[j].title.words@, recs[j].title.chars@, g@));
-                    assert(scored(hs[pos[k]], &recs[j], query));
-                }
-            } else {
-                // C12: every candidate passes the filter
-                lemma_filter_all(hs, passes(query));
-            }
-            // C03
-            lemma_search_c03(self, query, ixs@, hs, pos, __out0@);
-            lemma_search_c04(self, query, ixs@, hs, pos, __out0@);
-            lemma_search_c13(self, query, ixs@, hs, pos, __out0@);
-        }
+        proof { lemma_search_final(self, query, ixs@, hs, pos, __sel0@, __out0@); }
         __out0
     }
 }
